@@ -233,6 +233,29 @@ def wrapperAlone (ebusy : Int) (f : MutexFn) (owner : Option Tid) (t : Tid) : Op
 /-- `p_mutex_new` (hand transliteration): NULL when `pthread_mutex_init` reports an error -/
 def mutexNewOk (initCode : Int) : Bool := initCode == 0
 
+/-! ## (b') several lock objects
+
+`p_spinlock_new` / `p_mutex_new` hand out objects with a lock word / native mutex of their own (c11 / sync: the
+word is a member of the object; posix: `hdl` is a member; sim: `SimSpinImpl.freshMutex`, generated).  A program
+using objects `0, 1, 2, …` is the product machine: every step is a step of exactly one object and leaves all the
+others as they are.  Threads are shared: the same thread may hold several objects. -/
+
+def updObj {σ : Type} (f : Nat → σ) (i : Nat) (v : σ) : Nat → σ := fun j => if j = i then v else f j
+
+inductive PSStep (p : SpinImpl) : (Nat → SState) → (Nat → SState) → Prop
+  | on (f : Nat → SState) (i : Nat) (l : Lbl) (s' : SState) : SStep p false (f i) l s' → PSStep p f (updObj f i s')
+
+inductive PSReach (p : SpinImpl) : (Nat → SState) → Prop
+  | init : PSReach p (fun _ => sInit)
+  | step {f g : Nat → SState} : PSReach p f → PSStep p f g → PSReach p g
+
+inductive PMStep (ebusy : Int) (m : MutexImpl) : (Nat → MState) → (Nat → MState) → Prop
+  | on (f : Nat → MState) (i : Nat) (l : MLbl) (s' : MState) : MStep ebusy m (f i) l s' → PMStep ebusy m f (updObj f i s')
+
+inductive PMReach (ebusy : Int) (m : MutexImpl) : (Nat → MState) → Prop
+  | init : PMReach ebusy m (fun _ => mInit)
+  | step {f g : Nat → MState} : PMReach ebusy m f → PMStep ebusy m f g → PMReach ebusy m g
+
 /-! ## (c) bracketed bodies over one global mutex -/
 
 inductive BPC (n : Nat) (ρ : Type)
